@@ -230,6 +230,19 @@ func (ex *Exec) execReturn(s *ast.ReturnStmt, st *State) *Flow {
 	if st.pc.IsFalse() {
 		return &Flow{}
 	}
+	// witnesses of the contract under verification take their value here
+	if ex.recursing != nil && ex.recursing.fi == f.fi && f.lit == nil && len(ex.frames) == 2 {
+		for _, w := range ex.recursing.blk.Witnesses {
+			gl := ex.ghostLoc(ex.recursing.blk.Pkg, w[0])
+			e, err := ex.prog.CheckExprAt(f.fi.Pkg, s.Pos(), w[2])
+			if gl == nil || err != nil {
+				unsupported("witness %s = %s does not type-check at %s: %v", w[0], w[2], ex.pos(s.Pos()), err)
+			}
+			ex.suppress++
+			st.store[gl] = ex.convertAssign(ex.eval(e, st), gl.Typ, st)
+			ex.suppress--
+		}
+	}
 	return &Flow{Returns: []*RetState{{St: st, Vals: vals}}}
 }
 
@@ -396,7 +409,7 @@ func (ex *Exec) execFor(s *ast.ForStmt, st *State, label string) *Flow {
 	}
 	unroll, invs, havoc, _ := ex.loopClauses(s)
 	if len(invs) > 0 {
-		r := ex.execLoopInv(s, s.Cond, s.Body, s.Post, st, label, invs, havoc, false, nil)
+		r := ex.execLoopInv(s, s.Cond, s.Body, s.Post, st, label, invs, havoc, false, nil, nil)
 		ex.popScope(ex.flowStates(r)...)
 		return r
 	}
